@@ -170,9 +170,17 @@ def parent_definition(sc, W):
     raise HarnessError("unknown shape")
 
 
+def name_is_valid(name):
+    """The API's rule for names (C16 / C17): a string of 1..80 characters, none of them forbidden."""
+    return isinstance(name, str) and 1 <= len(name) <= 80 and not (set(name) & set(" <>{}[]?*\"#%\\^|~`$&,;:/")) and not any(ord(ch) < 32 or 127 <= ord(ch) < 160 for ch in name)
+
+
 def invalid_reason(sc):
     if not sc["child_exists"]:
         return "unknown-machine"
+    if sc.get("name") and sc.get("shape") != "map" and not name_is_valid(sc["name"]):
+        # the Name ends the child's execution ARN: one the StartExecution API would refuse (it would not split back, C17) must fail the launching Task, and no child may run (finding F113)
+        return "invalid-name"
     if sc["form"] in ("sync", "sync2") and sc["parent_type"] == "EXPRESS":
         return "sync-from-express"
     if sc["form"] == "sdk_sync" and sc["child_type"] == "STANDARD":
@@ -760,7 +768,7 @@ def strategies():
         "sib_ok": st.booleans(),
         "sib_delay": st.sampled_from([0.25, 2, 6, 12]),
         "child_input": inputs,
-        "name": st.sampled_from([None, None, "kid"]),
+        "name": st.sampled_from([None, None, None, "kid", "kid", "kid", "k.i-d_1", "a:b", "a/b", "x y", "n" * 80, "n" * 81, 5, "tab\t"]),
         "resource_region": st.sampled_from(["local", "local", "", "eu-west-1"]),
         "schedule": sched,
     }).map(fix_child)
